@@ -9,7 +9,7 @@ LEVEL = 'exploration'
 RULE = ('session connect (with a signature), shell, stat, push of 3 WRTEs at maxdata 4096, pull; every bulk_write accepts all (default) / 1 / len-1 / half of the bytes and reports the count; '
         'all placements of <=k such deviations over the whole write sequence (stateless DFS), plus global per-call capacities {1, 7, 23, 24, 25, 4095}; both twins; oracle: whenever a call '
         'returns normally the device model has received byte-for-byte the stream of the unlimited run up to that point (a short write must be completed or reported) and at every moment the bytes received so far are a prefix of that stream (in order, without gaps, also when a call raises), results equal the '
-        'unlimited run; plus two threads sharing one device over a short-writing transport (one preemption x one short write x one expired bounded lock wait); plus whole sessions over real loopback TCP with 4 KiB socket buffers and a slow reader (must equal the in-memory session); non-trivial = at least one short write; distinct = distinct (twin, capacity / choice list)')
+        'unlimited run; plus an asyncio task cancelled after each of its transport calls followed by another command (nothing but that command writes afterwards); plus two threads sharing one device over a short-writing transport (one preemption x one short write x one expired bounded lock wait); plus whole sessions over real loopback TCP with 4 KiB socket buffers and a slow reader (must equal the in-memory session); non-trivial = at least one short write; distinct = distinct (twin, capacity / choice list)')
 ASSUMPTIONS = ['adbsim device model', 'the in-memory transport reports the accepted count exactly as socket.send / libusb bulkWrite do']
 CON = {'_sim': {'auth': {'first': 'token', 'sig': ['cnxn'], 'pub': 'cnxn'}}, '_keys': [0]}
 
@@ -105,6 +105,52 @@ def run_short(params, ch):
                        'results': [r[0] for r in o['res']]}, 'trans': o['writes']}
 
 
+def run_cancel(params, ch):
+    """asyncio: the task running a command is cancelled (e.g. by wait_for) after its k-th transport call, over a transport that writes
+    16 bytes per call, so most k fall inside a message.  Afterwards another command runs on the same device.  From the cancellation on,
+    only the second command's task writes to the transport: a cancelled sender must not keep writing in the background, where its
+    bytes would land inside the other command's messages."""
+    import asyncio
+    cfg = scen.ops_cfg('two', 4096)
+    cfg['wcap_global'] = params['cap']
+    s = Session(ch, cfg, twin='async', explore_io=True, max_calls=20000)
+    try:
+        loop = s.loop
+        loop._explore_io = False
+        s.env.sched = None
+        s.op(('connect',))
+        loop._explore_io = True
+        s.env.sched = loop
+        s.env.writers = []
+        cmd = 'A' * params['cmdlen']
+        task, cancelled = loop.drive_cancelling(s.dev.shell(cmd, decode=False), loop.io_choices + params['k'])
+        try:
+            ra = ('ok', task.result())
+        except asyncio.CancelledError:
+            ra = ('cancelled',)
+        except Exception as e:  # pylint: disable=broad-except
+            ra = ('exc', type(e).__name__)
+        mark = len(s.env.writers)
+        loop._explore_io = False
+        s.env.sched = None
+        holder = {}
+
+        async def second():
+            holder['task'] = asyncio.current_task()
+            return await s.dev.shell('c', decode=False, transport_timeout_s=0.5, read_timeout_s=0.5)
+        rb = s.run(lambda d: second())
+        viol = []
+        foreign = [(i, n) for i, (t, n) in enumerate(s.env.writers[mark:]) if t is not holder.get('task')]
+        if cancelled and foreign:
+            viol.append({'msg': 'after the task running shell(%d bytes) was cancelled at its transport call %d (result %r), %d bulk_write calls (%d bytes) came from a task other than the one running the next '
+                                'command: a cancelled send kept writing in the background' % (params['cmdlen'], params['k'], ra, len(foreign), sum(n for _i, n in foreign))})
+        return {'outcome': (ra[0], rb[0], bool(foreign)), 'viol': viol, 'nontrivial': (params['cap'], params['cmdlen'], params['k']) if cancelled else None,
+                'sample': dict(params, first=ra[:2], second=rb[:2], writes_after_cancel=len(s.env.writers) - mark), 'trans': len(s.env.writers)}
+    finally:
+        s.env.sched = None
+        s.finish()
+
+
 def parts(tier):
     twins = ('sync', 'async')
     k = 2 if tier == 'quick' else 3
@@ -122,6 +168,12 @@ def parts(tier):
     out.append(Part('threads-short-writes', [{'scenario': k, 'wcap': True} for k in ('shell2|shell1', 'shell|push')], c06.run_threads, {'sched': 1, 'wcap': 1, 'dev-order': 0, 'lock-timeout': 1}, split=2,
                     what='two threads on one device over a short-writing transport: every schedule with one preemption x one short write x one expired bounded lock wait; every message arrives whole '
                          '(strict parser on the device side) and each call returns its solo result', bound='preemptions <= 1, short writes <= 1, expired lock waits <= 1', min_outcomes=1))
+    out.append(Part('tasks-queued-writes', [{'scenario': k, 'lazy': True} for k in ('shell2|shell1', 'shell|push', 'stream|shell')], c06.run_tasks, {'io-order': None, 'dev-order': 0}, split=2,
+                    what='two asyncio tasks on one device over a transport that queues written buffers by reference until its next call (as asyncio streams do): every I/O completion order; '
+                         'every message arrives whole and each call returns its solo result', bound='complete for the I/O completion order', min_outcomes=1))
+    sc = [{'cap': cap, 'cmdlen': n, 'k': k} for cap, n in ((16, 100), (7, 40)) for k in range(0, 3 + (24 + n + 7) // cap + 6)]
+    out.append(Part('async-cancellation', sc, run_cancel, what='the asyncio task running a command is cancelled after its k-th transport call (every k of a short-writing transport), then another command runs: '
+                    'no write from any other task after the cancellation', bound='%d cancellation points' % len(sc), min_outcomes=2))
     out.append(Part('global-capacity', [{'twin': t, 'cap': c} for t in twins for c in (1, 7, 23, 24, 25, 4095)], run_short,
                     what='every bulk_write accepts at most c bytes', bound='6 capacities x 2 twins'))
     return out
